@@ -1,4 +1,4 @@
-(* End-to-end argument, fragment {sleep, sleep_until, log}: the main loop of the composite
+(* End-to-end argument, fragment of coq/Timer/Frag.v: the main loop of the composite
    model keeps the boundary invariant; when the event set is empty every task has finished
    with exactly the log the property demands. *)
 From Coq Require Import List Arith NArith Bool Lia Sorting.Sorted Permutation ZifyBool.
@@ -7,8 +7,11 @@ From DesVerif Require Import Common.Fuel CQueue.Model CQueue.Spec CQueue.SpecPro
 Import ListNotations.
 Open Scope N_scope.
 
-Lemma winv_take_snaps ts0 later w : WInv ts0 later w -> WInv ts0 later (take_snaps w).
-Proof. intros [H1 H2 H3 H4 H5 H6]. constructor; assumption. Qed.
+Lemma winv_take_snaps A0 A ts0 later w : WInv A0 A ts0 later w -> WInv A0 A ts0 later (take_snaps w).
+Proof. intros [H1 H2 H3 H4 H5 H6 H7 H8]. constructor; assumption. Qed.
+
+(* the boundary invariant, for some arrivals still expected *)
+Definition WInvE (A0 : N -> arrs) (ts0 : list task) (later : nat -> Prop) (w : world) : Prop := exists A, WInv A0 A ts0 later w.
 
 Lemma msg_of_inj k k' : msg_of k = msg_of k' -> k = k'.
 Proof. unfold msg_of. lia. Qed.
@@ -16,27 +19,28 @@ Proof. unfold msg_of. lia. Qed.
 Lemma msg_of_nat k : N.to_nat (msg_of k - 2) = k.
 Proof. unfold msg_of. lia. Qed.
 
-Lemma tstate_mod tk0 tk : tstate tk0 tk -> init_ok tk0 -> t_mod tk < 2.
-Proof. intros H Hi. destruct (tstate_cases _ _ H Hi) as (E & _). destruct Hi as (_ & _ & _ & _ & _ & Hm). lia. Qed.
+Lemma tstate_mod A0 A tk0 tk : tstate A0 A tk0 tk -> init_ok2 A0 tk0 -> t_mod tk < 2.
+Proof. intros H Hi. destruct (tstate_cases _ _ _ _ H Hi) as (E & _). destruct Hi as (_ & _ & _ & _ & _ & Hm & _). lia. Qed.
 
-Lemma base_mod ts0 ts own nid k tk : Base ts0 ts own nid -> nth_error ts k = Some tk -> t_mod tk < 2.
+Lemma base_mod A0 A ts0 ts own nid k tk : Base A0 A ts0 ts own nid -> nth_error ts k = Some tk -> t_mod tk < 2.
 Proof.
-  intros B Hk. destruct (Forall2_nth _ _ _ _ _ (b_states _ _ _ _ B) Hk) as (tk0 & Hk0 & Hst).
-  apply (tstate_mod tk0); [exact Hst|]. pose proof (b_init _ _ _ _ B) as Ha. rewrite Forall_forall in Ha. apply Ha.
+  intros B Hk. destruct (Forall2_nth _ _ _ _ _ (b_states _ _ _ _ _ _ B) Hk) as (tk0 & Hk0 & Hst).
+  apply (tstate_mod A0 A tk0); [exact Hst|]. pose proof (b_init _ _ _ _ _ _ B) as Ha. rewrite Forall_forall in Ha. apply Ha.
   eapply nth_error_In; exact Hk0.
 Qed.
 
 (* ---- one iteration of Runtime::run ---- *)
 (* the loop ends iff the event set is empty; otherwise the fetched event is a wake-up or a
    message, and the state in which its module_event begins satisfies PreEv *)
-Lemma loop_step_pre ts0 w : WInv ts0 (fun _ => False) w ->
+Lemma loop_step_pre A0 A ts0 w : WInv A0 A ts0 (fun _ => False) w ->
   (spend (w_fes w) = [] /\ loop_step true w = inr w) \/
   exists x w1 t m spawn fire,
     loop_step true w = inl (take_snaps (module_event true t m spawn fire w1)) /\
-    PreEv ts0 (fun _ => False) w1 t m spawn fire /\
-    spend (w_fes w) = x :: spend (w_fes w1) /\ w_tasks w1 = w_tasks w /\ (fire = true \/ spawn <> []).
+    PreEv A0 A ts0 (fun _ => False) w1 t m spawn fire /\
+    spend (w_fes w) = x :: spend (w_fes w1) /\ w_tasks w1 = w_tasks w /\ (fire = true \/ spawn <> []) /\
+    (forall m', drv_of w1 m' = drv_of w m') /\ m < 2.
 Proof.
-  intros HW. pose proof HW as [Hsi Htc Hmail Hbase Hdrv Hmsgs].
+  intros HW. pose proof HW as [Hsi Htc Hinert Harr Hnorecv Hbase Hdrv Hmsgs].
   assert (Hcase : spend (w_fes w) = [] \/ spend (w_fes w) <> []) by (destruct (spend (w_fes w)); [left; reflexivity|right; discriminate]).
   destruct Hcase as [Esp|Esp].
   { left. split; [exact Esp|]. unfold loop_step. rewrite (fetch_none _ Esp). reflexivity. }
@@ -48,13 +52,15 @@ Proof.
   set (w1 := set_fes w s').
   destruct (epay x <? 2) eqn:Ep.
   - (* the AsyncWakeupEvent of module [epay x] *)
-    exists x, w1, (etime x), (epay x), [], true. split; [reflexivity|]. split; [|split; [exact Hsp|split; [reflexivity|left; reflexivity]]].
+    exists x, w1, (etime x), (epay x), [], true. split; [reflexivity|]. split; [|split; [exact Hsp|split; [reflexivity|split; [left; reflexivity|split; [reflexivity|lia]]]]].
     constructor; cbn [w1 set_fes w_fes w_now w_mail w_tasks w_owner w_nid].
     + exact Hsi'.
     + exact Htc'.
     + lia.
     + exact Hmin.
-    + exact Hmail.
+    + exact Hinert.
+    + exact Harr.
+    + exact Hnorecv.
     + exact Hbase.
     + lia.
     + intros m' Hm'. destruct (Hdrv m' Hm') as (l & Hl & Hinv & Hperm & Htie & Hex). exists l. split; [exact Hl|].
@@ -66,6 +72,7 @@ Proof.
     + intros k [].
     + intros k e [].
     + intros k [].
+    + intros k tk0 [].
     + constructor.
       * intros e He Hp. exact (Mt e (or_intror He) Hp).
       * cbn [map filter] in Mn. replace (2 <=? epay x) with false in Mn by lia. exact Mn.
@@ -77,15 +84,17 @@ Proof.
     destruct (Mt x (or_introl eq_refl)) as (k & tk & E1 & Hk & Hun & E2 & E3); [lia|].
     rewrite E1, msg_of_nat. change (w_tasks w1) with (w_tasks w). rewrite Hk.
     cbn [map filter] in Mn. replace (2 <=? epay x) with true in Mn by lia. inversion Mn as [|? ? Hnotin Mn']; subst.
-    exists x, w1, (etime x), (t_mod tk), [k], false. split; [reflexivity|]. split; [|split; [exact Hsp|split; [reflexivity|right; discriminate]]].
+    exists x, w1, (etime x), (t_mod tk), [k], false. split; [reflexivity|]. split; [|split; [exact Hsp|split; [reflexivity|split; [right; discriminate|split; [reflexivity|exact (base_mod _ _ _ _ _ _ _ _ Hbase Hk)]]]]].
     constructor; cbn [w1 set_fes w_fes w_now w_mail w_tasks w_owner w_nid].
     + exact Hsi'.
     + exact Htc'.
     + lia.
     + exact Hmin.
-    + exact Hmail.
+    + exact Hinert.
+    + exact Harr.
+    + exact Hnorecv.
     + exact Hbase.
-    + exact (base_mod _ _ _ _ _ _ Hbase Hk).
+    + exact (base_mod _ _ _ _ _ _ _ _ Hbase Hk).
     + intros m' Hm'. destruct (Hdrv m' Hm') as (l & Hl & Hinv & Hperm & Htie & Hex). exists l. split; [exact Hl|].
       change (drv_of (set_fes w s') m') with (drv_of w m'). split; [exact Hinv|]. split; [|split; [exact Htie|exact Hex]].
       rewrite Hsp, wakes_cons in Hperm. replace (epay x =? m') with false in Hperm by lia. exact Hperm.
@@ -94,6 +103,7 @@ Proof.
     + intros k' e [<-|[]] He Ee. apply Hnotin. apply filter_In. split; [|unfold msg_of in Ee; lia].
       apply in_map_iff. exists e. split; [rewrite Ee; symmetry; exact E1|exact He].
     + intros k' [].
+    + intros k' tk0 [].
     + constructor.
       * intros e He Hp. exact (Mt e (or_intror He) Hp).
       * exact Mn'.
@@ -103,92 +113,86 @@ Proof.
       * intros k' [[]|[<-|[]]]. exists tk. split; assumption.
 Qed.
 
-Lemma loop_step_winv ts0 w : WInv ts0 (fun _ => False) w ->
+Lemma loop_step_winv A0 ts0 w : WInvE A0 ts0 (fun _ => False) w ->
   match loop_step true w with
-  | inl w' => WInv ts0 (fun _ => False) w'
+  | inl w' => WInvE A0 ts0 (fun _ => False) w'
   | inr w' => w' = w /\ spend (w_fes w) = []
   end.
 Proof.
-  intros HW. destruct (loop_step_pre ts0 w HW) as [(Esp & ->)|(x & w1 & t & m & spawn & fire & -> & HP & _)].
+  intros [A HW]. destruct (loop_step_pre A0 A ts0 w HW) as [(Esp & ->)|(x & w1 & t & m & spawn & fire & -> & HP & _)].
   - split; [reflexivity|exact Esp].
-  - apply winv_take_snaps, module_event_winv. exact HP.
+  - destruct (module_event_winv _ _ _ _ _ _ _ _ _ HP) as (A' & HW'). exists A'. apply winv_take_snaps. exact HW'.
 Qed.
 
-(* every iteration lowers  2 * (steps still to go + tasks still to spawn) + pending events *)
-Definition mu (w : world) : nat := (2 * work (w_tasks w) + length (spend (w_fes w)))%nat.
+(* every iteration lowers  2 * (work still to do) + pending events + stale wake-ups *)
+Definition mu (w : world) : nat :=
+  (2 * work (w_tasks w) + length (spend (w_fes w)) + stale (drv_of w 0) + stale (drv_of w 1))%nat.
 
-Lemma loop_step_measure ts0 w : WInv ts0 (fun _ => False) w ->
+Lemma loop_step_measure A0 ts0 w : WInvE A0 ts0 (fun _ => False) w ->
   match loop_step true w with
   | inl w' => (mu w' + 1 <= mu w)%nat
   | inr _ => True
   end.
 Proof.
-  intros HW. destruct (loop_step_pre ts0 w HW) as [(Esp & ->)|(x & w1 & t & m & spawn & fire & -> & HP & Hsp & Hts & Hcase)]; [exact I|].
-  destruct (module_event_measure _ _ _ _ _ _ _ HP) as (nq & H1 & H2 & H3).
+  intros [A HW]. destruct (loop_step_pre A0 A ts0 w HW) as [(Esp & ->)|(x & w1 & t & m & spawn & fire & -> & HP & Hsp & Hts & Hcase & Hdr & Hm)]; [exact I|].
+  destruct (module_event_measure _ _ _ _ _ _ _ _ _ HP) as (_ & H2 & H3). specialize (H2 Hcase).
   unfold mu. change (w_tasks (take_snaps ?W)) with (w_tasks W). change (w_fes (take_snaps ?W)) with (w_fes W).
-  rewrite Hsp. cbn [length]. rewrite <- Hts.
-  destruct Hcase as [Hf|Hs].
-  - destruct nq as [|nq]; [|lia]. destruct (H3 Hf eq_refl) as [E1 E2]. lia.
-  - specialize (H2 Hs). lia.
+  change (drv_of (take_snaps ?W) ?M) with (drv_of W M).
+  rewrite Hsp. cbn [length]. rewrite <- Hts, <- !Hdr.
+  assert (Hm01 : m = 0 \/ m = 1) by lia. destruct Hm01 as [E0 | E0]; subst m.
+  - rewrite (H3 1) by (cbn; discriminate). lia.
+  - rewrite (H3 0) by (cbn; discriminate). lia.
 Qed.
 
 (* ---- when the event set is empty ---- *)
-Definition done_exact (tk0 tk : task) : Prop := t_fin tk = true /\ t_log tk = expected tk0.
+Definition done_exact (A0 : N -> arrs) (tk0 tk : task) : Prop := t_fin tk = true /\ t_log tk = expected A0 tk0.
 
-Lemma Forall2_nth_impl {A B} (R Q : A -> B -> Prop) l l' : Forall2 R l l' ->
-  (forall k a b, nth_error l k = Some a -> nth_error l' k = Some b -> R a b -> Q a b) -> Forall2 Q l l'.
+Lemma winv_final A0 A ts0 w : WInv A0 A ts0 (fun _ => False) w -> spend (w_fes w) = [] -> Forall2 (done_exact A0) ts0 (w_tasks w).
 Proof.
-  intros H. induction H as [|x y l l' Hxy H IH]; intros Himp; [constructor|].
-  constructor; [exact (Himp 0%nat x y eq_refl eq_refl Hxy)|].
-  apply IH. intros k a b Ha Hb Hr. exact (Himp (S k) a b Ha Hb Hr).
-Qed.
-
-Lemma winv_final ts0 w : WInv ts0 (fun _ => False) w -> spend (w_fes w) = [] -> Forall2 done_exact ts0 (w_tasks w).
-Proof.
-  intros [Hsi Htc Hmail Hbase Hdrv Hmsgs] Hsp.
-  apply (Forall2_nth_impl _ _ _ _ (b_states _ _ _ _ Hbase)). intros k tk0 tk Hk0 Hk Hst.
-  assert (Hi : init_ok tk0).
-  { pose proof (b_init _ _ _ _ Hbase) as Ha. rewrite Forall_forall in Ha. apply Ha. eapply nth_error_In; exact Hk0. }
-  destruct Hst as [->|a st rest H1 H2 H3 H4 H5 H7 H8 H9 H10 H11|H1 H2 H3 H4 H5 H6 H7].
+  intros [Hsi Htc Hinert Harr Hnorecv Hbase Hdrv Hmsgs] Hsp.
+  apply (Forall2_nth_impl _ _ _ _ (b_states _ _ _ _ _ _ Hbase)). intros k tk0 tk Hk0 Hk Hst.
+  assert (Hi : init_ok2 A0 tk0).
+  { pose proof (b_init _ _ _ _ _ _ Hbase) as Ha. rewrite Forall_forall in Ha. apply Ha. eapply nth_error_In; exact Hk0. }
+  destruct Hst as [-> _ _|a st rest H1 H2 H3 H4 H5 H7 H8 H9 H10 H11 _ _ _|H1 H2 H3 H4 H5 H6 H7].
   - (* never spawned: its message would still be in the event set *)
     exfalso. destruct Hi as (_ & I2 & _ & _ & I5 & _).
     destruct (m_all _ _ _ Hmsgs k tk0 Hk (conj I2 I5)) as [[]|(e & He & _)]. rewrite Hsp in He. contradiction.
   - (* blocked: its timer is live, so a wake-up would still be in the event set *)
-    exfalso. pose proof (base_mod _ _ _ _ _ _ Hbase Hk) as Hm.
+    exfalso. pose proof (base_mod _ _ _ _ _ _ _ _ Hbase Hk) as Hm.
     destruct (Hdrv (t_mod tk) Hm) as (l & _ & [Hmid Hwake] & Hperm & [Hentry _ _] & _).
     destruct (aw_wake_held a _ H8) as [(s & Hs & Es) _].
     assert (Hh : In s (held tk)) by (unfold held; rewrite H5; exact Hs).
     pose proof (Hentry k tk s Hk Hh eq_refl (or_introl (fun F => F))) as Hin.
     assert (Hne : ents_at (deadline s) (pending (drv_of w (t_mod tk))) <> []) by (intros E; rewrite E in Hin; contradiction).
-    assert (Hfin : deadline s < TMAX) by (rewrite Es; exact (base_blocked_fin _ _ _ _ _ _ _ Hbase Hk H5)).
+    assert (Hfin : deadline s < TMAX) by (rewrite Es; exact (base_blocked_fin _ _ _ _ _ _ _ _ _ Hbase Hk H5)).
     destruct (Hwake _ _ (ents_at_in _ _ Hne) Hne Hfin) as (w0 & Hw0 & _).
     rewrite Hsp in Hperm. cbn in Hperm. apply Permutation_nil in Hperm. rewrite Hperm in Hw0. contradiction.
   - split; assumption.
 Qed.
 
 (* safety at every boundary: what a task has logged so far is a prefix of the demanded log *)
-Lemma winv_prefix ts0 later w : WInv ts0 later w ->
-  Forall2 (fun tk0 tk => exists rest, expected tk0 = t_log tk ++ rest) ts0 (w_tasks w).
+Lemma winv_prefix A0 A ts0 later w : WInv A0 A ts0 later w ->
+  Forall2 (fun tk0 tk => exists rest, expected A0 tk0 = t_log tk ++ rest) ts0 (w_tasks w).
 Proof.
-  intros HW. pose proof (wi_base _ _ _ HW) as Hbase.
-  apply (Forall2_nth_impl _ _ _ _ (b_states _ _ _ _ Hbase)). intros k tk0 tk Hk0 Hk Hst.
-  assert (Hi : init_ok tk0).
-  { pose proof (b_init _ _ _ _ Hbase) as Ha. rewrite Forall_forall in Ha. apply Ha. eapply nth_error_In; exact Hk0. }
-  destruct Hst as [->|a st rest H1 H2 H3 H4 H5 H7 H8 H9 H10 H11|H1 H2 H3 H4 H5 H6 H7].
-  - destruct Hi as (_ & _ & _ & I4 & _). rewrite I4. exists (expected tk0). reflexivity.
+  intros HW. pose proof (wi_base _ _ _ _ _ HW) as Hbase.
+  apply (Forall2_nth_impl _ _ _ _ (b_states _ _ _ _ _ _ Hbase)). intros k tk0 tk Hk0 Hk Hst.
+  assert (Hi : init_ok2 A0 tk0).
+  { pose proof (b_init _ _ _ _ _ _ Hbase) as Ha. rewrite Forall_forall in Ha. apply Ha. eapply nth_error_In; exact Hk0. }
+  destruct Hst as [-> _ _|a st rest H1 H2 H3 H4 H5 H7 H8 H9 H10 H11 _ _ _|H1 H2 H3 H4 H5 H6 H7].
+  - destruct Hi as (_ & _ & _ & I4 & _). rewrite I4. exists (expected A0 tk0). reflexivity.
   - eexists. exact H11.
   - exists []. rewrite app_nil_r. symmetry. exact H7.
 Qed.
 
 (* ---- any number of iterations ---- *)
-Lemma iter_winv ts0 n : forall w, WInv ts0 (fun _ => False) w ->
+Lemma iter_winv A0 ts0 n : forall w, WInvE A0 ts0 (fun _ => False) w ->
   match iter_nat n (loop_step true) w with
-  | inl w' => WInv ts0 (fun _ => False) w'
-  | inr w' => WInv ts0 (fun _ => False) w' /\ spend (w_fes w') = []
+  | inl w' => WInvE A0 ts0 (fun _ => False) w'
+  | inr w' => WInvE A0 ts0 (fun _ => False) w' /\ spend (w_fes w') = []
   end.
 Proof.
   induction n as [|n IH]; intros w HW; cbn [iter_nat]; [exact HW|].
-  pose proof (loop_step_winv ts0 w HW) as H. destruct (loop_step true w) as [w'|w'].
+  pose proof (loop_step_winv A0 ts0 w HW) as H. destruct (loop_step true w) as [w'|w'].
   - exact (IH w' H).
   - destruct H as [-> Hsp]. split; assumption.
 Qed.
